@@ -113,7 +113,7 @@ func WorkerMain(prop, tier string, seed int64, from, to, stride int, journal str
 		res := p.RunCase(ctx)
 		res.Case = i
 		for k := range res.Violations {
-			res.Violations[k].Prop = prop
+			res.Violations[k].Prop = strings.TrimSuffix(prop, "R")
 			res.Violations[k].Case = i
 		}
 		b, err := json.Marshal(res)
@@ -141,6 +141,7 @@ type Options struct {
 	WorkDir  string // /verif/work/<prop>
 	Root     string // /verif
 	Race     bool   // the binary is a -race build: collect race logs
+	RaceSelf string // path of the -race build of this binary: runs property <Prop>R with it and collects race reports
 	Timeout  time.Duration
 	ExtraEnv []string
 }
@@ -201,7 +202,7 @@ func crashSite(stderr string) (string, string) {
 
 // runWorkerSlice drives one worker slot: (re)starts the child until its slice is done.
 func runWorkerSlice(o Options, slot, n int, a *agg) {
-	from := slot
+	from := slot % 100
 	attempt := 0
 	for from < n {
 		attempt++
@@ -250,7 +251,7 @@ func runWorkerSlice(o Options, slot, n int, a *agg) {
 		if !timedOut {
 			traceTxt = rerunWithTrace(o, last)
 		}
-		v := Violation{Prop: o.Prop, Case: last,
+		v := Violation{Prop: strings.TrimSuffix(o.Prop, "R"), Case: last,
 			Witness: map[string]interface{}{"prop": o.Prop, "tier": o.Tier, "seed": o.Seed, "case": last, "trace_tail": traceTxt},
 			Extra:   map[string]interface{}{"stderr": trunc(stderr, 6000)}}
 		if timedOut {
@@ -428,6 +429,33 @@ func Check(o Options) int {
 		}(s)
 	}
 	wg.Wait()
+	if o.RaceSelf != "" {
+		if rp := Get(o.Prop + "R"); rp != nil {
+			ro := o
+			ro.Prop = o.Prop + "R"
+			ro.Self = o.RaceSelf
+			ro.ExtraEnv = append(append([]string{}, o.ExtraEnv...), "GORACE=halt_on_error=0 log_path="+filepath.Join(o.WorkDir, "race"))
+			rn := rp.NumCases(o.Tier)
+			if ro.Workers > rn {
+				ro.Workers = rn
+			}
+			// the race build is slow and every case already runs many goroutines: few processes
+			if ro.Workers > 4 {
+				ro.Workers = 4
+			}
+			var wg2 sync.WaitGroup
+			for s := 0; s < ro.Workers; s++ {
+				wg2.Add(1)
+				go func(s int) {
+					defer wg2.Done()
+					runWorkerSlice(ro, s+100, rn, a)
+				}(s)
+			}
+			wg2.Wait()
+			n += rn
+			o.Race = true
+		}
+	}
 	if o.Race {
 		collectRaceReports(o, a)
 	}
@@ -475,7 +503,7 @@ func collectRaceReports(o Options, a *agg) {
 				continue
 			}
 			seen[sig] = true
-			a.viols = append(a.viols, Violation{Prop: o.Prop, Rule: "data-race", Feature: sig,
+			a.viols = append(a.viols, Violation{Prop: strings.TrimSuffix(o.Prop, "R"), Rule: "data-race", Feature: sig,
 				Detail:  "race detector report between " + sig,
 				Witness: map[string]interface{}{"report": trunc(blk, 5000), "file": f}})
 		}
